@@ -38,7 +38,7 @@ RULE = (
     "Distinct = canonical JSON of the case."
 )
 ASSUMPTIONS = [
-    "under concurrency only loss/duplication is asserted, not the order of concurrent messages relative to buffered ones",
+    "under concurrency loss, duplication and per-thread / buffered-first order are asserted; order violations across the first hand-over are the open known finding F17",
     "pausing a thread at a `line` trace event does not change what the traced code computes",
 ]
 
@@ -422,6 +422,7 @@ def check_handover(case):
         late = [m.get("who") for m in received[0][count_then:] if s.started.get(m.get("who"), 0) > removed_tick]
         require(not late, "delivered-after-remove", lambda: "destination 0 received %r, whose logging calls started after remove_destination had returned" % (late,))
     # map end messages to their action through task_uuid
+    order_checks = []
     for i, lst in enumerate(received):
         if i == 0 and 0 in s.removed_at:
             continue
@@ -454,6 +455,27 @@ def check_handover(case):
         require(not missing, "message-lost", lambda: "destination %d never received %r (received %r)" % (i, missing, keys))
         require(not dup, "message-duplicated", lambda: "destination %d received %r more than once (received %r)" % (i, dup, keys))
         require(not extra, "unexpected-message", lambda: "destination %d received unexpected %r" % (i, extra))
+        order_checks.append((i, keys))
+    # order: what one thread logged arrives in the order it logged it, and what was logged before the threads
+    # started (buffered) arrives ahead of everything else  (checked last: loss/duplication first)
+    for i, keys in order_checks:
+        pos = dict((k, n) for n, k in enumerate(keys))
+        pre = [k for k in logged if k.startswith("pre.") and k in pos]
+        rest = [k for k in keys if not k.startswith("pre.")]
+        bad = [k for k in pre if rest and pos[k] > pos[rest[0]]]
+        require(not bad, "order-across-handover", lambda: "destination %d: %r, logged before anything else, arrived after %r (received %r)" % (i, bad, rest[0], keys))
+        for tid in range(len(case["loggers"])):
+            mine = [k for k in keys if k.startswith("t%d." % tid)]
+            want = [k for k in logged if k.startswith("t%d." % tid) and k in pos]
+            # program order of one thread: start, 0, 1, ..., end
+            def rank(k):
+                tail = k.split(".", 1)[1]
+                return -1 if tail == "start" else 10**6 if tail == "end" else int(tail)
+            require(
+                mine == sorted(mine, key=rank),
+                "order-across-handover",
+                lambda: "destination %d: thread %d's messages arrived as %r" % (i, tid, mine),
+            )
     inside = s.switched_inside(("send", "add", "__call__", "stop_buffering", "write"))
     return {"steps": s.steps, "switches": len(s.switches), "switch_inside": len(inside), "ndest": case["ndest"], "pre": case.get("pre", 0)}
 
@@ -520,6 +542,15 @@ def ops_strategy():
     after = st.lists(st.one_of(small_log, small_log, add, remove, glob, log, twin, remove), max_size=10)
     return st.tuples(before, add, after).map(lambda t: {"ops": t[0] + [t[1]] + t[2]})
 
+
+def _known_f17(facet, case, violation):
+    # a message logged while the first add_destinations re-delivers the start-up buffer is handed to the new
+    # destinations at once, ahead of buffered messages that are still waiting for re-delivery
+    later_add = bool(case.get("second_add")) and case.get("ndest", 1) >= 2
+    return facet in ("handover", "handover-enum") and violation.kind == "order-across-handover" and not later_add
+
+
+KNOWN = {"F17-order-across-handover": _known_f17}
 
 FACETS = [
     Facet("history", None, check_history, classify_history, quick=300, thorough=5000, runner=history_runner),
